@@ -583,6 +583,16 @@ Section ENGINE.
     if has_crash bs then ObsErr ECrash else
     match first_err l with Some k => ObsErr k | None => ObsOk (data_of l) end.
 
+  (* what the client experiences: the process died / the request failed / a result *)
+  Inductive outcome := OCrash | OFailed | OResult (l : list entry).
+  Definition outcome_of (bs : batches) : outcome :=
+    match observe bs with
+    | ObsErr ECrash => OCrash
+    | ObsErr _ => OFailed
+    | ObsOk l => OResult l
+    end.
+  Definition no_crash_in (bs : batches) : Prop := has_crash bs = false.
+
   (* stable sort by fingerprint (canonical order of an output whose series order is unspecified) *)
   Fixpoint ins_fp (e : entry) (l : list entry) : list entry :=
     match l with
